@@ -182,7 +182,7 @@ var vC04RemoteKinds = []struct {
 	w    int
 }{
 	{"valid", 50}, {"invalid", 8}, {"expired", 7}, {"miskeyedA", 7}, {"miskeyedB", 4}, {"wrongvalkey", 4},
-	{"empty", 5}, {"nilvalue", 4}, {"nilrecord", 4}, {"garbage", 4}, {"midexpiry", 3},
+	{"empty", 5}, {"nilvalue", 4}, {"nilrecord", 4}, {"garbage", 4}, {"midexpiry", 3}, {"miskeyedCase", 4},
 }
 
 func vC04PickKind(r *rand.Rand) string {
@@ -299,6 +299,15 @@ func vC04RecordFor(kind string, sc vC04Sc, pool []vC04Val, id *int, r *rand.Rand
 	case "miskeyedA":
 		// filed under another key, but the value itself would validate for the requested key
 		return &recpb.Record{Key: []byte(sc.Other), Value: vC04Val{ID: next(), Rank: 100 + r.Intn(9), Key: sc.Key}.Bytes()}, true
+	case "miskeyedCase":
+		// filed under a key that differs from the requested one only in letter case; the value would validate
+		ck := []byte(sc.Key)
+		if r.Intn(2) == 0 {
+			ck[1] -= 'a' - 'A' // "/V/key-..."
+		} else {
+			ck[3] -= 'a' - 'A' // "/v/Key-..."
+		}
+		return &recpb.Record{Key: ck, Value: vC04Val{ID: next(), Rank: 100 + r.Intn(9), Key: sc.Key}.Bytes()}, true
 	case "miskeyedB":
 		return &recpb.Record{Key: []byte(sc.Other), Value: vC04Val{ID: next(), Rank: 100 + r.Intn(9), Key: sc.Other}.Bytes()}, true
 	case "wrongvalkey":
@@ -741,7 +750,7 @@ func vC04Nontrivial(res *vC04Res) bool {
 	return len(ranks) >= 1 && (len(ranks) >= 2 || bad >= 1)
 }
 
-const vC04Rule = "PRNG networks (N 1-200, thorough up to 700; K in {1,2,3,5,8,20}, alpha in {1,2,3,10}, beta in {1,2,3,K}; knowledge full/kbucket/sparse; 0-35% responders dead/erroring/silent); each responder and the local store hold one of {valid value from a pool of 1-4 values with ranks 1-5 (ties, shared bytes), stale, flagged invalid, expired, expiring during the search, record filed under another key (value valid for the requested key / for the other key), value embedding another key, empty, nil value, nil record, garbage, missing}; quorum in {unset,0,1,2,K}, 1/12 with routing.Offline; latencies 1-400 ms decide arrival order; 1/6 cancelled at a PRNG instant; immediate consumer; oracle over the GET_VALUE answers in the simulated wire log + local record + generated validator evaluated on the virtual clock; non-trivial = at least one valid supply and (two ranks or a rejected/mis-keyed record); distinct by (shape, quorum, local kind, arrival order of supplies)"
+const vC04Rule = "PRNG networks (N 1-200, thorough up to 700; K in {1,2,3,5,8,20}, alpha in {1,2,3,10}, beta in {1,2,3,K}; knowledge full/kbucket/sparse; 0-35% responders dead/erroring/silent); each responder and the local store hold one of {valid value from a pool of 1-4 values with ranks 1-5 (ties, shared bytes), stale, flagged invalid, expired, expiring during the search, record filed under another key (value valid for the requested key / for the other key) or under a key that differs in letter case only, value embedding another key, empty, nil value, nil record, garbage, missing}; quorum in {unset,0,1,2,K}, 1/12 with routing.Offline; latencies 1-400 ms decide arrival order; 1/6 cancelled at a PRNG instant; immediate consumer; oracle over the GET_VALUE answers in the simulated wire log + local record + generated validator evaluated on the virtual clock; non-trivial = at least one valid supply and (two ranks or a rejected/mis-keyed record); distinct by (shape, quorum, local kind, arrival order of supplies)"
 
 func TestVerif_C04_search(t *testing.T) {
 	vh.Run(t, vh.Spec{Prop: "C04", Unit: "search", Quick: 1200, Thorough: 40000, CostMs: 6, Rule: "SearchValue; " + vC04Rule,
